@@ -150,6 +150,23 @@ func (t *T) Stream(req *pb.RequestOp_Range) ([]*pb.ResponseOp_Range, error) {
 	return iter.Collect(seq), nil
 }
 
+// StreamDeferred obtains the lazily evaluated sequence, runs between() (other requests served by
+// the same process in the meantime), and only then consumes it — the way the gRPC server does.
+func (t *T) StreamDeferred(req *pb.RequestOp_Range, between func()) ([]*pb.ResponseOp_Range, error) {
+	v, err := t.SM.Lookup(fsm.IteratorRequest{RangeOp: req})
+	if err != nil {
+		return nil, err
+	}
+	seq, ok := v.(iter.Seq[*pb.ResponseOp_Range])
+	if !ok {
+		return nil, fmt.Errorf("Lookup(iterator) returned %T", v)
+	}
+	if between != nil {
+		between()
+	}
+	return iter.Collect(seq), nil
+}
+
 func (t *T) Txn(req *pb.TxnRequest) (*pb.TxnResponse, error) {
 	v, err := t.SM.Lookup(req)
 	if err != nil {
